@@ -434,6 +434,14 @@ struct runner
 			std::size_t n = udpsocks.at(arg(1))->send_to(cb, udps::endpoint(mk_addr(t[k + 2], arg(3)), (unsigned short)arg(4)), 0, ec);
 			tr.line("L t=%lld 4 2 %lld %d %zu", now_ns(), arg(1), ec_code(ec), n);
 		}
+		else if (c == "udp_send_bytes")
+		{
+			std::string const data = unhex(t[k + 5]);
+			boost::system::error_code ec;
+			std::size_t n = udpsocks.at(arg(1))->send_to(asio::const_buffer(data.data(), data.size())
+				, udps::endpoint(mk_addr(t[k + 2], arg(3)), (unsigned short)arg(4)), 0, ec);
+			tr.line("L t=%lld 4 2 %lld %d %zu", now_ns(), arg(1), ec_code(ec), n);
+		}
 		else if (c == "udp_recvfrom")
 		{
 			auto bufs = mk_rbufs(t);
